@@ -329,7 +329,7 @@ class Gen:
 # ------------------------------------------------------------------ normalisation / comparison
 def norm_outs(outs, impl):
     """-> dict with per-id event lists, result codes, ghost sets."""
-    evs, res, created, hits, news, panic = {}, [], set(), set(), [], False
+    evs, res, created, hits, news, panic, gone = {}, [], set(), set(), [], False, set()
     for o in outs:
         t = o[0]
         if t in (1, 2, 3, 4, 5, 6):
@@ -350,7 +350,10 @@ def norm_outs(outs, impl):
             res.append(o[1])
         elif t == 14:
             panic = True
-    return {"evs": evs, "res": res, "created": sorted(created), "hits": sorted(hits), "news": sorted(news), "panic": panic}
+        elif t == 15:
+            gone.add((o[1], o[2]))
+    return {"evs": evs, "res": res, "created": sorted(created), "hits": sorted(hits), "news": sorted(news), "panic": panic,
+            "gone": sorted(gone)}
 
 
 def parse_coq_lll(v):
@@ -505,12 +508,22 @@ def run_impl_sequence(ctx, ops_or_gen, nops, idem):
         impl.do("reset")
         judge = Judge(idem)
         ops, results = [], []
+        prev_rows = []
         gen = ops_or_gen if isinstance(ops_or_gen, Gen) else None
         fixed = None if gen else list(ops_or_gen)
         n = nops if gen else len(fixed)
         for i in range(n):
             op = gen.next_op() if gen else fixed[i]
             res = impl.do(impl_line(op))
+            # ghost marker of the model's OGone, derived from the implementation's dumps: an id that
+            # left the map without a PaymentFailed in this operation
+            if res["state"]:
+                before_ids = {r[0] for r in prev_rows}
+                after_ids = {r[0] for r in res["state"][:-1]}
+                for pid in sorted(before_ids - after_ids):
+                    if not any(o[0] == 2 and o[1] == pid for o in res["outs"]):
+                        res["outs"].append([15, pid, 0 if op["k"] == "tick" else 1])
+                prev_rows = res["state"][:-1]
             ops.append(op)
             results.append(res)
             if gen:
